@@ -395,6 +395,8 @@ func (e *Env) ident(name string) *Val {
 			return &Val{T: nil, GhostElem: tBool, A: []string{e.tr.cur(e.st, compStopped)}}
 		case "$armedDelay":
 			return &Val{T: nil, GhostElem: tInt, A: []string{e.tr.cur(e.st, compArmedDelay)}}
+		case "$armedAt":
+			return &Val{T: nil, GhostElem: tInt, A: []string{e.tr.cur(e.st, compArmedAt)}}
 		case "$armedFn":
 			return &Val{T: nil, GhostElem: tInt, A: []string{e.tr.cur(e.st, compArmedFn)}}
 		case "$logsRemoved":
@@ -852,6 +854,8 @@ func (tr *FnCtx) resolveComps(pat string, pkg *types.Package) []Comp {
 			return []Comp{compStopped}
 		case "$armedDelay":
 			return []Comp{compArmedDelay}
+		case "$armedAt":
+			return []Comp{compArmedAt}
 		case "$armedFn":
 			return []Comp{compArmedFn}
 		case "$logsRemoved":
